@@ -145,6 +145,54 @@ ParseFile(text, na, twopl) ==
           two   |-> twopl,
           lrank |-> [l \in 1 .. nl |-> RowOfList(ns, ll[l].ents, ll[l].rks)] ]
 
+(* The file CONTENT a text denotes, together with structural facts about   *)
+(* the text (used to validate files written by the real generator).        *)
+InfoHeader == <<105,110,115,116,97,110,99,101,32,103,101,110,101,114,97,116,105,111,110,32,
+                112,97,114,97,109,101,116,101,114,115>>       \* "instance generation parameters"
+ParseFC(text, na) ==
+    LET lines == SplitLines(text)
+        hd    == SplitBlanks(lines[1])
+        ns    == Num(hd[1])
+        np    == Num(hd[2])
+        nl    == IF na = 2 THEN np ELSE Num(hd[3])
+        need  == 1 + ns + np + (IF na = 2 THEN 0 ELSE nl)
+        sf    == [s \in 1 .. ns |-> Fields(lines[1 + s])]
+        pf    == [p \in 1 .. np |-> Fields(lines[1 + ns + p])]
+        lf    == [l \in 1 .. nl |-> IF na = 2 THEN pf[l] ELSE Fields(lines[1 + ns + np + l])]
+        first == IF na = 2 THEN 4 ELSE 5
+        stl   == [s \in 1 .. ns |-> ReadTokens(Tail(sf[s]))]
+        ltoks == [l \in 1 .. nl |-> SubSeq(lf[l], first, Len(lf[l]))]
+        ll    == [l \in 1 .. nl |-> ReadTokens(ltoks[l])]
+    IN  [ na |-> na, ns |-> ns, np |-> np, nl |-> nl,
+          prefs |-> [s \in 1 .. ns |-> stl[s].ents], ranks |-> [s \in 1 .. ns |-> stl[s].rks],
+          plq |-> [p \in 1 .. np |-> Num(pf[p][2])], puq |-> [p \in 1 .. np |-> Num(pf[p][3])],
+          plec |-> [p \in 1 .. np |-> IF na = 2 THEN p ELSE Num(pf[p][4])],
+          llq |-> [l \in 1 .. nl |-> Num(lf[l][2])],
+          lt  |-> [l \in 1 .. nl |-> Num(lf[l][3])],
+          luq |-> [l \in 1 .. nl |-> IF na = 2 THEN Num(lf[l][3]) ELSE Num(lf[l][4])],
+          lists |-> \E l \in 1 .. nl : ltoks[l] # <<>>,
+          lprefs |-> [l \in 1 .. nl |-> ll[l].ents], lranks |-> [l \in 1 .. nl |-> ll[l].rks],
+          \* structural facts
+          numbered |-> /\ \A s \in 1 .. ns : IsNum(sf[s][1]) /\ Num(sf[s][1]) = s
+                       /\ \A p \in 1 .. np : IsNum(pf[p][1]) /\ Num(pf[p][1]) = p
+                       /\ \A l \in 1 .. nl : IsNum(lf[l][1]) /\ Num(lf[l][1]) = l,
+          projfields |-> \A p \in 1 .. np : IF na = 2 THEN Len(pf[p]) >= 3 ELSE Len(pf[p]) = 4,
+          parens |-> /\ \A s \in 1 .. ns : ParensBalanced(Tail(sf[s]))
+                     /\ \A l \in 1 .. nl : ParensBalanced(ltoks[l]),
+          block |-> /\ Len(lines) >= need + 2 /\ lines[need + 1] = <<>> /\ lines[need + 2] = InfoHeader ]
+StructureOK(text, na) ==      \* enough well-shaped lines to parse at all
+    LET lines == SplitLines(text) IN
+    /\ Len(lines) >= 1
+    /\ LET hd == SplitBlanks(lines[1]) IN
+       /\ Len(hd) = na /\ \A i \in DOMAIN hd : IsNum(hd[i])
+       /\ LET ns == Num(hd[1])  np == Num(hd[2])  nl == IF na = 2 THEN 0 ELSE Num(hd[3]) IN
+          /\ Len(lines) >= 1 + ns + np + nl
+          /\ \A i \in 2 .. 1 + ns : Len(Fields(lines[i])) >= 1
+          /\ \A i \in 2 + ns .. 1 + ns + np : Len(Fields(lines[i])) >= (IF na = 2 THEN 3 ELSE 4)
+          /\ \A i \in 2 + ns + np .. 1 + ns + np + nl : Len(Fields(lines[i])) >= 4
+          /\ \A i \in 2 .. 1 + ns + np + nl : \A j \in DOMAIN Fields(lines[i]) :
+                 LET tk == Fields(lines[i])[j] IN IsNum(Strip(Strip(tk, LPARc), RPARc))
+
 (* The instance a file CONTENT record denotes (independent of text).       *)
 Denote(FC, twopl) ==
     LET two2 == FC.na = 2 IN
